@@ -1118,10 +1118,22 @@ def exact_select(
 
     pick = min if is_min else max
     joined = reduce(lambda a, b: a | b, afs)
+    # An operand that may be the infinity a selection never returns while another
+    # operand is finite (`+inf` for `min`, `-inf` for `max`) bounds nothing.
+    if is_min:
+        pos_bound = pick(
+            (af.pos_bound for af in afs if not af.has_pos_inf), default=joined.pos_bound,
+        )
+        neg_bound = pick(af.neg_bound for af in afs)
+    else:
+        pos_bound = pick(af.pos_bound for af in afs)
+        neg_bound = pick(
+            (af.neg_bound for af in afs if not af.has_neg_inf), default=joined.neg_bound,
+        )
     return AbstractFormat(
         joined.prec, joined.exp,
-        pick(af.pos_bound for af in afs),
-        neg_bound=pick(af.neg_bound for af in afs),
+        pos_bound,
+        neg_bound=neg_bound,
         has_pos_inf=joined.has_pos_inf,
         has_neg_inf=joined.has_neg_inf,
         has_nan=joined.has_nan,
